@@ -688,10 +688,11 @@ class NestedFrame(pd.DataFrame):
 
             for col in subset:
                 # Without a ".", always assume base layer
-                if "." not in col:
+                components = self._parse_hierarchical_components(col)
+                if len(components) < 2:
                     subset_target.append("base")
                 else:
-                    layer, col = col.split(".")
+                    layer = components[0]
                     if layer in nested_cols:
                         subset_target.append(layer)
                     else:
@@ -835,7 +836,7 @@ class NestedFrame(pd.DataFrame):
         if ignore_index:
             raise ValueError("ignore_index is not supported for nested columns")
         if subset is not None:
-            subset = [col.split(".")[-1] for col in subset]
+            subset = [".".join(self._parse_hierarchical_components(col)[1:]) for col in subset]
         target_flat = self[target].nest.to_flat()
         target_flat = target_flat.set_index(self[target].array.get_list_index())
         if inplace:
@@ -930,7 +931,7 @@ class NestedFrame(pd.DataFrame):
         # Check "by" columns for hierarchical references
         for col in by:
             if self._is_known_hierarchical_column(col):
-                target.append(col.split(".")[0])
+                target.append(self._parse_hierarchical_components(col)[0])
             else:
                 target.append("base")
 
@@ -959,7 +960,9 @@ class NestedFrame(pd.DataFrame):
             if target_flat.index.name is None:  # set name if not present
                 target_flat.index.name = "index"
             # Index must always be the first sort key for nested columns
-            nested_by = [target_flat.index.name] + [col.split(".")[-1] for col in by]
+            nested_by = [target_flat.index.name] + [
+                ".".join(self._parse_hierarchical_components(col)[1:]) for col in by
+            ]
 
             # Augment the ascending kwarg to include the index
             if isinstance(ascending, bool):
